@@ -35,6 +35,9 @@ import (
 //	        quartz.ErrQueueEmpty: no call "fails" in the loop's eyes, so its back-off state does not apply; the loop-side
 //	        calls in the window are counted against the same limit (the code before the repair made ~145 000 Head calls
 //	        in 500 ms)
+//	empty-pop  for 400 ms (30/60/90 ms) Size() and Head() answer truthfully (three stored jobs, the head due) while Pop()
+//	        returns an error that wraps quartz.ErrQueueEmpty, as when another node of a clustered queue claims the head
+//	        (the code before the repair made ~140 000 Pop calls in 500 ms); same limit, recovery afterwards
 //	random  seeded mix: every call fails / is slow with some probability, random API calls in between
 //
 // Judged per plan: no panic and no hang (each plan runs in a supervised child process), every API call returns within
@@ -72,7 +75,9 @@ type fqPlan struct {
 }
 
 // windowed: the faults of this plan are active during one time window that starts once the jobs are running
-func (p fqPlan) windowed() bool { return p.Kind == "burst" || p.Kind == "spurious-empty" }
+func (p fqPlan) windowed() bool {
+	return p.Kind == "burst" || p.Kind == "spurious-empty" || p.Kind == "empty-pop"
+}
 
 func (p fqPlan) sizeReported() int {
 	if p.Index > 0 {
@@ -96,6 +101,8 @@ func (p fqPlan) String() string {
 		return fmt.Sprintf("plan %d: every %s-side %s call %ss for %v", p.ID, p.Side, strings.Join(p.Ops, "/"), p.Mode, p.win())
 	case "spurious-empty":
 		return fmt.Sprintf("plan %d: for %v Size() reports %d while Head() and Pop() return an error wrapping ErrQueueEmpty", p.ID, p.win(), p.sizeReported())
+	case "empty-pop":
+		return fmt.Sprintf("plan %d: for %v Size() and Head() answer truthfully (jobs are stored and due) while Pop() returns an error wrapping ErrQueueEmpty", p.ID, p.win())
 	}
 	return fmt.Sprintf("plan %d: random faults seed %d (fail %.2f, delay %.2f, ops %s, side %s)", p.ID, p.Seed, p.PFail, p.PDelay, strings.Join(p.Ops, "/"), p.Side)
 }
@@ -176,6 +183,10 @@ func (q *fqQueue) before(op string) bool {
 			if loop && (op == "size" || op == "head" || op == "pop") && !q.t0.IsZero() && time.Since(q.t0) < q.plan.win() {
 				fault = "empty"
 			}
+		case "empty-pop":
+			if op == "pop" && !q.t0.IsZero() && time.Since(q.t0) < q.plan.win() {
+				fault = "empty"
+			}
 		case "random":
 			if inOps && sideOK {
 				x := q.rnd.Float64()
@@ -208,7 +219,7 @@ func (q *fqQueue) before(op string) bool {
 // spurious reports whether the loop-side Size/Head/Pop call that was just admitted by before() must pretend that
 // the queue has a size but no head. (These three are made by the loop goroutine only, one after the other.)
 func (q *fqQueue) spurious() bool {
-	return q.plan.Kind == "spurious-empty" && q.loopEmpty.Load()
+	return (q.plan.Kind == "spurious-empty" || q.plan.Kind == "empty-pop") && q.loopEmpty.Load()
 }
 
 func (q *fqQueue) Push(j quartz.ScheduledJob) error {
@@ -466,7 +477,7 @@ func fqRunPlan(plan fqPlan) (rep fqReport) {
 			m.at = time.Duration(35+22*i) * time.Millisecond
 			script = append(script, m)
 		}
-	case "burst", "spurious-empty":
+	case "burst", "spurious-empty", "empty-pop":
 		phase = 60*time.Millisecond + plan.win() // no API calls during the burst: every one of them is an interrupt
 	case "random":
 		for i := 0; i < 6+r.Intn(6); i++ {
@@ -573,8 +584,11 @@ func fqRunPlan(plan fqPlan) (rep fqReport) {
 	q.mu.Unlock()
 	if plan.windowed() && rep.BurstCalls > fqBurstLimit {
 		what := "while the queue was failing"
-		if plan.Kind == "spurious-empty" {
+		switch plan.Kind {
+		case "spurious-empty":
 			what = "while the queue reported a size but had no head"
+		case "empty-pop":
+			what = "while the queue had a due head but nothing to pop"
 		}
 		rep.Violations = append(rep.Violations, fmt.Sprintf("C15 busy loop: %d loop-side queue calls within %v %s (RetryInterval %v allows about %d; limit %d) (%s)",
 			rep.BurstCalls, plan.win(), what, fqRetry, 3*int(plan.win()/fqRetry)+3, fqBurstLimit, plan))
@@ -674,6 +688,9 @@ func faultsRun(args []string) int {
 		add(fqPlan{Kind: "spurious-empty", Mode: "empty", WinMs: w})
 	}
 	add(fqPlan{Kind: "spurious-empty", Mode: "empty", Index: 3})
+	for _, w := range []int{0, 30, 60, 90} {
+		add(fqPlan{Kind: "empty-pop", Mode: "empty", WinMs: w})
+	}
 	opsets := [][]string{nil, {"pop", "push"}, {"size", "head"}, {"push", "remove", "get"}, {"pop"}, {"push"}, {"get", "remove", "clear", "list"}}
 	for k := 0; k < *n/2; k++ {
 		add(fqPlan{Kind: "random", Mode: "mixed", Seed: r.Int63n(1 << 40), PFail: []float64{0.05, 0.2, 0.5, 0.9}[r.Intn(4)], PDelay: []float64{0, 0.05, 0.2}[r.Intn(3)],
